@@ -18,18 +18,6 @@ Definition others_of (f : bool) (ops : list op) : list path :=
                          match spec_chunk_name (negb f) k co with Some o' => [o'] | None => [] end
                      | _ => [] end) ops.
 
-(* MIME exemption of a name: that of the first store of the name *)
-Fixpoint ex_of (f : bool) (ops : list op) (p : path) : bool :=
-  match ops with
-  | [] => false
-  | o :: r =>
-      match o, op_name f o with
-      | OStoreFile _ _ mime _, Some q | OStoreChunk _ _ _ mime _, Some q =>
-          if path_eqb q p then exempt mime else ex_of f r p
-      | _, _ => ex_of f r p
-      end
-  end.
-
 Definition memb (p : path) (l : list path) : bool := existsb (path_eqb p) l.
 
 Definition name_okb (n : path) : bool :=
@@ -42,18 +30,18 @@ Definition universe_okb (U X : list path) : bool :=
   forallb name_okb U && prefix_freeb U &&
   forallb (fun o => negb (memb o U) && name_okb o) X.
 
-Definition op_okb (c : cfg) (ex : path -> bool) (U X : list path) (o : op) : bool :=
+Definition op_okb (c : cfg) (U X : list path) (o : op) : bool :=
   match o with
   | OStoreFile n _ mime _ =>
       negb (is_absolute n) &&
-      match spec_norm n with Some p => memb p U && Bool.eqb (exempt mime) (ex p) | None => true end
+      match spec_norm n with Some p => memb p U | None => true end
   | OFetchFile n | OExists n =>
       negb (is_absolute n) &&
       match spec_norm n with Some p => memb p U | None => true end
   | OStoreChunk k co _ mime _ =>
       negb (match k with [] => true | _ => false end) && negb (is_absolute k) &&
       match spec_chunk_name (flat c) k co with
-      | Some p => memb p U && Bool.eqb (exempt mime) (ex p)
+      | Some p => memb p U
       | None => true
       end
   | OFetchChunk k co =>
@@ -67,13 +55,13 @@ Definition op_okb (c : cfg) (ex : path -> bool) (U X : list path) (o : op) : boo
 
 (* the history guard: relative file names, relative non-empty scale keys, no
    accepted name with a component ending in ".gz", accepted names pairwise
-   prefix-free, other-layout chunk paths unused, MIME exemption fixed per
-   name.  (Empty file names, names and keys mentioning ".." may occur: they
-   are refused on both sides.) *)
+   prefix-free, other-layout chunk paths unused.  The MIME type is free per
+   operation.  (Empty file names, names and keys mentioning ".." may occur:
+   they are refused on both sides.) *)
 Definition hist_guard (c : cfg) (ops : list op) : bool :=
   let U := names_of (flat c) ops in
   let X := others_of (flat c) ops in
-  cleanb (base c) && universe_okb U X && forallb (op_okb c (ex_of (flat c) ops) U X) ops.
+  cleanb (base c) && universe_okb U X && forallb (op_okb c U X) ops.
 
 Lemma memb_In : forall p l, memb p l = true <-> In p l.
 Proof.
@@ -116,20 +104,18 @@ Variable gz : N -> list N -> B.
 Variable gunzip : B -> gzres.
 Hypothesis Hgz : forall l b, gunzip (gz l b) = GzOk b.
 
-Lemma op_ok_sound : forall c ex U X o, op_okb c ex U X o = true -> op_ok c ex U X o.
+Lemma op_ok_sound : forall c U X o, op_okb c U X o = true -> op_ok c U X o.
 Proof.
-  intros c ex U X o H. destruct o as [n buf mime ow | n | n | k co buf mime ow | k co]; simpl in *.
+  intros c U X o H. destruct o as [n buf mime ow | n | n | k co buf mime ow | k co]; simpl in *.
   - apply andb_true_iff in H as [H1 H2]. apply negb_true_iff in H1. split; [exact H1|].
-    intros p Hp. rewrite Hp in H2. apply andb_true_iff in H2 as [H2 H3].
-    split; [apply memb_In; exact H2 | apply eqb_prop; exact H3].
+    intros p Hp. rewrite Hp in H2. apply memb_In. exact H2.
   - apply andb_true_iff in H as [H1 H2]. apply negb_true_iff in H1. split; [exact H1|].
     intros p Hp. rewrite Hp in H2. apply memb_In. exact H2.
   - apply andb_true_iff in H as [H1 H2]. apply negb_true_iff in H1. split; [exact H1|].
     intros p Hp. rewrite Hp in H2. apply memb_In. exact H2.
   - apply andb_true_iff in H as [H H3]. apply andb_true_iff in H as [H1 H2].
     apply negb_true_iff in H2. split; [intro E; subst k; discriminate|]. split; [exact H2|].
-    intros p Hp. rewrite Hp in H3. apply andb_true_iff in H3 as [H3 H4].
-    split; [apply memb_In; exact H3 | apply eqb_prop; exact H4].
+    intros p Hp. rewrite Hp in H3. apply memb_In. exact H3.
   - apply andb_true_iff in H as [H H3]. apply andb_true_iff in H as [H1 H2].
     apply negb_true_iff in H2. split; [intro E; subst k; discriminate|]. split; [exact H2|].
     intros kp Hp. rewrite Hp in H3. apply andb_true_iff in H3 as [H3 H4].
@@ -145,60 +131,70 @@ Proof.
   intros c ops t0 Hg Hf. unfold hist_guard in Hg.
   apply andb_true_iff in Hg as [Hg H3]. apply andb_true_iff in Hg as [H1 H2].
   destruct (universe_ok_sound _ _ H2) as [HU [HPF HX]].
-  apply (refinement B plain gz gunzip Hgz c (ex_of (flat c) ops) _ _ H1 HU HPF HX ops t0 []).
+  apply (refinement B plain gz gunzip Hgz c _ _ H1 HU HPF HX ops (fun _ => false) t0 []).
   - apply inv_fresh; assumption.
   - apply Forall_forall. intros o Ho. rewrite forallb_forall in H3. apply op_ok_sound, H3, Ho.
 Qed.
 
-(* the invariant holds in every state reached by a guarded history *)
+(* the invariant holds in every state reached by a guarded history, for some
+   assignment of a form (plain / .gz) to the names *)
 Theorem reachable_inv : forall c ops t0,
   hist_guard c ops = true -> fresh B c t0 ->
-  Inv B plain gz c (ex_of (flat c) ops) (names_of (flat c) ops)
+  exists fm, Inv B plain gz c (names_of (flat c) ops) fm
       (snd (run_ops B plain gz gunzip c t0 ops)) (snd (spec_ops (flat c) [] ops)).
 Proof.
   intros c ops t0 Hg Hf. unfold hist_guard in Hg.
   apply andb_true_iff in Hg as [Hg H3]. apply andb_true_iff in Hg as [H1 H2].
   destruct (universe_ok_sound _ _ H2) as [HU [HPF HX]].
-  apply (refinement B plain gz gunzip Hgz c (ex_of (flat c) ops) _ _ H1 HU HPF HX ops t0 []).
+  apply (refinement B plain gz gunzip Hgz c _ _ H1 HU HPF HX ops (fun _ => false) t0 []).
   - apply inv_fresh; assumption.
   - apply Forall_forall. intros o Ho. rewrite forallb_forall in H3. apply op_ok_sound, H3, Ho.
 Qed.
 
-(* (2) storing without permission to overwrite fails and leaves the content *)
-Theorem no_overwrite_preserves : forall c ex U X t m n buf mime old,
+(* (2) storing without permission to overwrite, under ANY MIME type, fails
+   and leaves the content (and its form) as it is *)
+Theorem no_overwrite_preserves : forall c U X fm t m n buf mime old,
   cleanb (base c) = true -> universe_okb U X = true ->
-  Inv B plain gz c ex U t m -> In n U -> exempt mime = ex n -> aget m n = Some old ->
-  exists t', run B (plain []) t (store_at B plain gz c (base c ++ n) buf mime false) = (AccessErr, t')
-          /\ Inv B plain gz c ex U t' m
-          /\ lookup B t' (phys c ex n) = Some (File (enc B plain gz c ex n old)).
+  Inv B plain gz c U fm t m -> In n U -> aget m n = Some old ->
+  exists t' fm', run B (plain []) t (store_at B plain gz c (base c ++ n) buf mime false) = (AccessErr, t')
+          /\ Inv B plain gz c U fm' t' m
+          /\ lookup B t' (phys c fm' n) = Some (File (enc B plain gz c fm' n old)).
 Proof.
-  intros c ex U X t m n buf mime old Hb Hu HI Hn Hex Hg.
+  intros c U X fm t m n buf mime old Hb Hu HI Hn Hg.
   destruct (universe_ok_sound _ _ Hu) as [HU [HPF HX]].
-  destruct (store_refines B plain gz c ex U Hb HU HPF t m n buf mime false HI Hn Hex) as [t' [Hr HI']].
+  destruct (store_refines B plain gz c U Hb HU HPF fm t m n buf mime false HI Hn) as [t' [fm' [Hr [HI' _]]]].
   unfold spec_store in Hr, HI'. rewrite Hg in Hr, HI'. simpl in Hr, HI'.
-  exists t'. split; [exact Hr | split; [exact HI'|]].
-  rewrite (i_phys B plain gz c ex U t' m HI' n Hn), Hg. reflexivity.
+  exists t', fm'. split; [exact Hr | split; [exact HI'|]].
+  rewrite (i_phys B plain gz c U fm' t' m HI' n Hn), Hg. reflexivity.
 Qed.
 
 (* (3) a stored name lands at the documented path, compressed iff gzip is on
-   and the MIME type is not exempt *)
-Theorem store_lands : forall c ex U X t m n buf mime ow t' r,
+   and the MIME type of THIS store is not exempt - and the other form of the
+   name does not exist afterwards (never both forms) *)
+Theorem store_lands : forall c U X fm t m n buf mime ow t' r,
   cleanb (base c) = true -> universe_okb U X = true ->
-  Inv B plain gz c ex U t m -> In n U -> exempt mime = ex n ->
+  Inv B plain gz c U fm t m -> In n U ->
   run B (plain []) t (store_at B plain gz c (base c ++ n) buf mime ow) = (Ok r, t') ->
   lookup B t' (base c ++ (if gzip c && negb (exempt mime) then with_gz n else n))
-  = Some (File (if gzip c && negb (exempt mime) then gz (level c) buf else plain buf)).
+  = Some (File (if gzip c && negb (exempt mime) then gz (level c) buf else plain buf)) /\
+  lookup B t' (base c ++ (if gzip c && negb (exempt mime) then n else with_gz n)) = None.
 Proof.
-  intros c ex U X t m n buf mime ow t' r Hb Hu HI Hn Hex Hrun.
+  intros c U X fm t m n buf mime ow t' r Hb Hu HI Hn Hrun.
   destruct (universe_ok_sound _ _ Hu) as [HU [HPF HX]].
-  destruct (store_refines B plain gz c ex U Hb HU HPF t m n buf mime ow HI Hn Hex) as [t2 [Hr HI']].
+  destruct (store_refines B plain gz c U Hb HU HPF fm t m n buf mime ow HI Hn) as [t2 [fm' [Hr [HI' Hform]]]].
   rewrite Hrun in Hr. inversion Hr as [[Ho Ht]]. subst t2.
-  pose proof (i_phys B plain gz c ex U t' _ HI' n Hn) as Hp.
-  unfold spec_store in Ho, Hp. unfold phys, relphys, enc, zipped in Hp. rewrite <- Hex in Hp.
-  destruct (aget m n) as [old|] eqn:Eg.
-  - destruct ow; simpl in Ho; [|discriminate]. cbn [snd fst] in Hp.
-    rewrite aget_aset, path_eqb_refl in Hp. exact Hp.
-  - cbn [snd fst] in Hp. rewrite aget_aset, path_eqb_refl in Hp. exact Hp.
+  assert (Hok : exists r0, fst (spec_store m n buf ow) = Ok r0 /\ snd (spec_store m n buf ow) = aset m n buf).
+  { unfold spec_store in *. destruct (aget m n); [destruct ow; simpl in Ho; [|discriminate]|]; eexists; split; reflexivity. }
+  destruct Hok as [r0 [Hr0 Hm]]. pose proof (Hform r0 Hr0) as Hfn. rewrite Hm in HI'.
+  pose proof (i_phys B plain gz c U fm' t' _ HI' n Hn) as Hp.
+  rewrite aget_aset, path_eqb_refl in Hp. unfold phys, relphys, enc, zipped in Hp. rewrite Hfn in Hp.
+  split; [exact Hp|].
+  apply (form_absent B plain gz c U HU HPF fm' t' _ n _ HI' Hn).
+  - destruct (gzip c && negb (exempt mime)); auto.
+  - unfold phys, relphys, zipped. rewrite Hfn. destruct (HU n Hn) as [Hne _].
+    destruct (gzip c && negb (exempt mime)); intro E; apply app_inv_head in E.
+    + symmetry in E. exact (gzfree_not_with_gz n n Hne (proj2 (proj2 (HU n Hn))) E).
+    + exact (gzfree_not_with_gz n n Hne (proj2 (proj2 (HU n Hn))) E).
 Qed.
 
 (* (4) reading does not depend on the reader's configuration *)
@@ -349,7 +345,7 @@ Qed.
 (* every path handed to a file-system primitive *)
 Definition call_path (cl : call B) : path :=
   match cl with
-  | CIsFile p | CExists p | CMakedirs p | COpen p _ | CWrite p _ | CRead p | CClose p => p
+  | CIsFile p | CExists p | CMakedirs p | CUnlink p | COpen p _ | CWrite p _ | CRead p | CClose p => p
   end.
 Fixpoint calls_in {A} (P : path -> Prop) (p : prog B A) : Prop :=
   match p with
@@ -411,16 +407,42 @@ Proof.
     split; [exact H2|]. intros [x| |d''|e]; simpl; try exact Hf; apply Hk; exact H2.
 Qed.
 
+Lemma calls_write_it : forall (P : path -> Prop) target data ow,
+  P target -> calls_in P (write_it B target data ow).
+Proof.
+  intros P target data ow Ht. unfold write_it. simpl. split; [exact Ht|].
+  intros [x1| |d1|e1]; simpl; try exact I;
+    (split; [exact Ht|]; intros [x2| |d2|e2]; simpl;
+     (split; [exact Ht | intros r; destruct r; exact I])).
+Qed.
+
 Lemma calls_store_at : forall (P : path -> Prop) c fp buf mime ow,
   P (parent fp) -> P fp -> P (with_gz fp) -> calls_in P (store_at B plain gz c fp buf mime ow).
 Proof.
-  intros P c fp buf mime ow H0 H1 H2. unfold store_at. simpl. split; [exact H0|].
+  intros P c fp buf mime ow H0 H1 H2. unfold store_at. cbn [calls_in call_path]. split; [exact H0|].
   assert (Ht : P (if gzip c && negb (exempt mime) then with_gz fp else fp))
     by (destruct (gzip c && negb (exempt mime)); assumption).
-  intros [x| |d|e]; simpl; try exact I;
-    (split; [exact Ht|]; intros [x1| |d1|e1]; simpl; try exact I;
-     (split; [exact Ht|]; intros [x2| |d2|e2]; simpl;
-      (split; [exact Ht | intros r; destruct r; exact I]))).
+  assert (Ho : P (if gzip c && negb (exempt mime) then fp else with_gz fp))
+    by (destruct (gzip c && negb (exempt mime)); assumption).
+  assert (Hrest : forall r1 : reply B,
+    calls_in P match r1 with
+               | RErr _ => Ret AccessErr
+               | RBool true =>
+                   if ow
+                   then Do (CUnlink (if gzip c && negb (exempt mime) then fp else with_gz fp))
+                          (fun r => match r with
+                                    | RErr _ => Ret AccessErr
+                                    | _ => write_it B (if gzip c && negb (exempt mime) then with_gz fp else fp)
+                                             (if gzip c && negb (exempt mime) then gz (level c) buf else plain buf) ow
+                                    end)
+                   else Ret AccessErr
+               | _ => write_it B (if gzip c && negb (exempt mime) then with_gz fp else fp)
+                        (if gzip c && negb (exempt mime) then gz (level c) buf else plain buf) ow
+               end).
+  { intros r1. destruct r1 as [[|]| |d1|e1]; try exact I; try (apply calls_write_it; exact Ht).
+    destruct ow; [|exact I]. cbn [calls_in call_path]. split; [exact Ho|].
+    intros r2. destruct r2; try exact I; apply calls_write_it; exact Ht. }
+  intros r0. destruct r0 as [x| |d|e]; try exact I; (cbn [calls_in call_path]; split; [exact Ho | exact Hrest]).
 Qed.
 
 (* no operation ever hands a path outside the dataset directory (or one
@@ -549,16 +571,18 @@ Definition w_tree : fs blob := [([[119]], Dir); (w_base, Dir); (w_sentinel, File
 Definition w_run (c : cfg) (ops : list op) :=
   run_ops blob BPlain BGz (blob_gunzip []) c w_tree ops.
 
-(* a tree written under two configurations: the copy that is found is fixed
-   by the probe order (plain before .gz, deep after flat), not by recency *)
-Lemma mixed_config_refuted :
+(* a tree written under two LAYOUTS: the copy that is found is fixed by the
+   probe order (deep after flat), not by recency *)
+(* gzip on / off no longer matters across writers: the second writer removes
+   the other form, the latest bytes are read under every configuration *)
+Lemma mixed_gzip_latest_wins :
   exists name old new,
     let t1 := snd (w_run (w_cfg false false) [OStoreFile name old [] true]) in
     let '(_, t2) := run_ops blob BPlain BGz (blob_gunzip []) (w_cfg false true) t1
                             [OStoreFile name new [] true] in
     old <> new /\
     forall f g, fst (run_ops blob BPlain BGz (blob_gunzip []) (w_cfg f g) t2 [OFetchFile name])
-                = [Ok (VData (BPlain old))].
+                = [Ok (VData (BPlain new))].
 Proof.
   exists [97], [1], [2]. vm_compute. split; [discriminate|]. intros [] []; reflexivity.
 Qed.
@@ -586,7 +610,10 @@ Definition ex_history : list op :=
     OFetchChunk [107] {| cx0 := 0; cx1 := 64; cy0 := 0; cy1 := 64; cz0 := 0; cz1 := 64 |};
     OExists [97;47;46;46;47;98];                                       (* a/../b: refused *)
     OStoreFile [109;47;47;49;58;48] [9] [] true;                       (* m//1:0 *)
-    OFetchFile [109;47;49;58;48] ].
+    OFetchFile [109;47;49;58;48];
+    OStoreFile [105;110;102;111] [5] [] true;                          (* info again, another MIME class *)
+    OFetchFile [105;110;102;111];
+    OStoreChunk [107] {| cx0 := 0; cx1 := 64; cy0 := 0; cy1 := 64; cz0 := 0; cz1 := 64 |} [4] mime_jpeg false ].
 
 Lemma guard_example : forall f g, hist_guard (w_cfg f g) ex_history = true.
 Proof. intros [] []; vm_compute; reflexivity. Qed.
